@@ -36,6 +36,8 @@ def node_path(sc, node):
     if node == "ld":
         return "root/ld"
     if node == "la":
+        if sc["cls"]["a"] == "absent":      # (no link without its target: a path that does not exist)
+            return "root/la.md"
         return "root/" + file_name("a", sc["cls"]["a"], prefix="l")
     cls = sc["cls"][node]
     if cls == "absent":      # a path to a file that is not there
